@@ -37,7 +37,8 @@ def _is_valid_field_name(field: DataModelFieldBase) -> bool:
     name = field.name if field.original_name is None else field.original_name
     if name is None:  # pragma: no cover
         return False
-    return name.isidentifier() and not keyword.iskeyword(name)
+    # class syntax writes the sanitised `field.name`: it only keeps the key when both are the same
+    return name.isidentifier() and not keyword.iskeyword(name) and name == field.name
 
 
 class TypedDict(DataModel):
